@@ -76,6 +76,8 @@ fn try_dgram(input: &Value) -> Option<Value> {
         let mut hang = false;
         let mut obs = vec![];
         let mut collision = false;
+        let mut t_submit: u64 = 0;
+        let mut t_done: i64 = -1;
         // IDs of the datagrams sent so far, by attempt (socket)
         let ids_of = |net: &DgramNet| -> Vec<u16> {
             (0..net.nsocks())
@@ -87,6 +89,7 @@ fn try_dgram(input: &Value) -> Option<Value> {
                 "submit" => {
                     let req = SendRequest::send_request(&conn, build_request(num(op, "q")));
                     spawn_waiter(req, 1, &comp, &act);
+                    t_submit = clock.ticks();
                 }
                 "deliver" => {
                     let ids = ids_of(&net);
@@ -145,7 +148,10 @@ fn try_dgram(input: &Value) -> Option<Value> {
                 })
                 .collect();
             let waiting = net.nsocks() > 0 && net.open(net.nsocks() - 1) && done.is_empty();
-            let mut p = json!({"sent": sent, "done": done, "waiting": waiting});
+            if t_done < 0 && !done.is_empty() {
+                t_done = (clock.ticks() - t_submit) as i64;
+            }
+            let mut p = json!({"sent": sent, "done": done, "waiting": waiting, "t": t_done});
             if hang {
                 p["hang"] = json!(true);
             }
@@ -171,6 +177,251 @@ fn run_dgram(input: &Value) -> Value {
     json!({"id_collision_every_time": true})
 }
 
+
+/// multi_stream over a mock connector.  One tick = 100 s, longer than any
+/// back-off of multi_stream (at most 60 s), so a Delay ends with the next tick.
+fn run_multi(input: &Value) -> Value {
+    use domain::net::client::multi_stream;
+    use domain::net::client::request::SendRequest;
+    use std::sync::{Arc, Mutex};
+    use std::time::Duration;
+    let tick = Duration::from_secs(100);
+    let cfg = &input["cfg"];
+    let nreq = num(cfg, "nreq") as usize;
+    let ops = input["ops"].as_array().cloned().unwrap_or_default();
+    let rt = runtime();
+    rt.block_on(async move {
+        let act = Activity::default();
+        let connector = StreamConnector::new(&act);
+        let mut mcfg = multi_stream::Config::from(quiet_stream_config());
+        mcfg.set_response_timeout(tick * (num(cfg, "rt") as u32));
+        let (conn, transport) =
+            multi_stream::Connection::<domain::net::client::request::RequestMessage<Vec<u8>>>::with_config(
+                connector.clone(),
+                mcfg,
+            );
+        tokio::spawn(counted(transport.run(), &act));
+        let comp: Completions = Arc::new(Mutex::new(vec![]));
+        let mut clock = Clock::new();
+        let mut now: u64 = 0;
+        let mut t_submit = vec![0u64; nreq + 1];
+        let mut t_done = vec![-1i64; nreq + 1];
+        let mut hang = !settle(&act).await;
+        let mut obs = vec![];
+        for op in ops.iter() {
+            let r = num(op, "r");
+            let c = (num(op, "c") as usize).wrapping_sub(1);
+            match op["op"].as_str().unwrap_or("") {
+                "submit" => {
+                    let req = SendRequest::send_request(&conn, build_request(num(op, "q")));
+                    spawn_waiter(req, r, &comp, &act);
+                    t_submit[r as usize] = now;
+                }
+                "conn_ok" => {
+                    connector.resolve(true);
+                }
+                "conn_fail" => {
+                    connector.resolve(false);
+                }
+                "reply" | "wrong" => {
+                    if let Some(peer) = connector.peer(c) {
+                        // the request for question r carries q = r
+                        if let Some(id) = id_of_request(&peer, r) {
+                            let q = if op["op"] == "reply" { r } else { r + 10 };
+                            let f = json!({"id": id, "qr": true, "q": q, "rcode": 0, "body": false, "tc": false, "ka": -1});
+                            peer.push_frame(&build_peer_msg(&f));
+                        }
+                    }
+                }
+                "close" => {
+                    if let Some(peer) = connector.peer(c) {
+                        peer.close();
+                    }
+                }
+                "tick" => {
+                    clock.advance(tick).await;
+                    now += 1;
+                }
+                _ => return json!({"bad_op": op}),
+            }
+            if !hang && !settle(&act).await {
+                hang = true;
+            }
+            let written: Vec<Vec<bool>> = (0..connector.npeers())
+                .map(|i| {
+                    let p = connector.peer(i).unwrap();
+                    (1..=nreq as u64).map(|q| times_written(&p, q) > 0).collect()
+                })
+                .collect();
+            let dup = (0..connector.npeers()).any(|i| {
+                let p = connector.peer(i).unwrap();
+                (1..=nreq as u64).any(|q| times_written(&p, q) > 1)
+            });
+            let mut done: Vec<Vec<Value>> = vec![vec![]; nreq];
+            for (r, o, _) in comp.lock().unwrap().iter() {
+                let r = *r as usize;
+                if t_done[r] < 0 {
+                    t_done[r] = (now - t_submit[r]) as i64;
+                }
+                done[r - 1].push(json!({"ok": o.get("ok").is_some(), "t": t_done[r]}));
+            }
+            let mut p = json!({"nconnect": connector.calls(), "written": written, "done": done});
+            if dup {
+                p["written_twice"] = json!(true);
+            }
+            if hang {
+                p["hang"] = json!(true);
+            }
+            if !clock.in_step() {
+                p["clock_drift"] = json!(true);
+            }
+            obs.push(p);
+        }
+        Value::Array(obs)
+    })
+}
+
+/// dgram_stream: the real dgram transport over mock sockets and the real
+/// multi_stream over the mock connector.  One tick = 10 s.
+fn try_dgst(input: &Value) -> Option<Value> {
+    use domain::base::Message;
+    use domain::net::client::request::SendRequest;
+    use domain::net::client::{dgram_stream, multi_stream};
+    use std::sync::{Arc, Mutex};
+    let cfg = &input["cfg"];
+    let ops = input["ops"].as_array().cloned().unwrap_or_default();
+    let rt = runtime();
+    rt.block_on(async move {
+        let act = Activity::default();
+        let net = DgramNet::new(&act);
+        let connector = StreamConnector::new(&act);
+        let mut dcfg = domain::net::client::dgram::Config::new();
+        dcfg.set_read_timeout(TICK * (num(cfg, "rd") as u32));
+        dcfg.set_max_retries(num(cfg, "retries") as u8);
+        let mut mcfg = multi_stream::Config::from(quiet_stream_config());
+        mcfg.set_response_timeout(TICK * (num(cfg, "rt") as u32));
+        let xcfg = dgram_stream::Config::from_parts(dcfg, mcfg);
+        let (conn, transport) = dgram_stream::Connection::<
+            DgramNet,
+            domain::net::client::request::RequestMessage<Vec<u8>>,
+        >::with_config(net.clone(), connector.clone(), xcfg);
+        tokio::spawn(counted(transport.run(), &act));
+        let comp: Completions = Arc::new(Mutex::new(vec![]));
+        let mut clock = Clock::new();
+        let mut t_done: i64 = -1;
+        let mut hang = !settle(&act).await;
+        let mut obs = vec![];
+        let mut collision = false;
+        let ids_of = |net: &DgramNet| -> Vec<u16> {
+            (0..net.nsocks())
+                .filter_map(|i| net.sent(i).first().and_then(|d| Message::from_slice(d).ok().map(|m| m.header().id())))
+                .collect()
+        };
+        for op in ops.iter() {
+            let c = (num(op, "c") as usize).wrapping_sub(1);
+            match op["op"].as_str().unwrap_or("") {
+                "submit" => {
+                    let req = SendRequest::send_request(&conn, build_request(num(op, "q")));
+                    spawn_waiter(req, 1, &comp, &act);
+                }
+                "deliver" => {
+                    let ids = ids_of(&net);
+                    let cur = net.nsocks().saturating_sub(1);
+                    let d = &op["d"];
+                    let dgram = match d["kind"].as_str().unwrap_or("") {
+                        "short" => Ok(vec![1u8, 2, 3]),
+                        _ => {
+                            let mut f = d["f"].clone();
+                            let sym = num(&f, "id") as usize;
+                            let real = if sym >= 1 && sym <= ids.len() {
+                                ids[sym - 1]
+                            } else {
+                                (0..=u16::MAX).find(|x| !ids.contains(x)).unwrap_or(0)
+                            };
+                            f["id"] = json!(real);
+                            Ok(build_peer_msg(&f))
+                        }
+                    };
+                    net.deliver(cur, dgram);
+                }
+                "conn_ok" => {
+                    connector.resolve(true);
+                }
+                "conn_fail" => {
+                    connector.resolve(false);
+                }
+                "reply" | "wrong" => {
+                    if let Some(peer) = connector.peer(c) {
+                        if let Some(id) = id_of_request(&peer, 1) {
+                            let q = if op["op"] == "reply" { 1 } else { 11 };
+                            // stream answers have no answer record: "body" tells the legs apart
+                            let f = json!({"id": id, "qr": true, "q": q, "rcode": 0, "body": false, "tc": false, "ka": -1});
+                            peer.push_frame(&build_peer_msg(&f));
+                        }
+                    }
+                }
+                "close" => {
+                    if let Some(peer) = connector.peer(c) {
+                        peer.close();
+                    }
+                }
+                "tick" => clock.advance(TICK).await,
+                _ => return Some(json!({"bad_op": op})),
+            }
+            if !hang && !settle(&act).await {
+                hang = true;
+            }
+            let ids = ids_of(&net);
+            for (i, a) in ids.iter().enumerate() {
+                if ids[..i].contains(a) {
+                    collision = true;
+                }
+            }
+            let udp: Vec<Value> = (0..net.nsocks())
+                .map(|i| match net.sent(i).first() {
+                    Some(d) => abstract_request(d)["q"].clone(),
+                    None => json!(-1),
+                })
+                .collect();
+            let written: Vec<Vec<bool>> = (0..connector.npeers())
+                .map(|i| vec![times_written(&connector.peer(i).unwrap(), 1) > 0])
+                .collect();
+            let mut done = vec![];
+            for (_, o, _) in comp.lock().unwrap().iter() {
+                if t_done < 0 {
+                    t_done = clock.ticks() as i64; // submit is the first operation, at tick 0
+                }
+                done.push(match o.get("ok") {
+                    Some(f) => json!({"ok": true,
+                                      "via": if f["body"] == json!(true) { "udp" } else { "tcp" },
+                                      "tc": f["tc"], "t": t_done}),
+                    None => json!({"ok": false,
+                                   "via": if connector.calls() > 0 { "tcp" } else { "udp" },
+                                   "tc": false, "t": t_done}),
+                });
+            }
+            let mut p = json!({"udp": udp, "nconnect": connector.calls(), "written": written, "done": done});
+            if hang {
+                p["hang"] = json!(true);
+            }
+            if !clock.in_step() {
+                p["clock_drift"] = json!(true);
+            }
+            obs.push(p);
+        }
+        if collision { None } else { Some(Value::Array(obs)) }
+    })
+}
+
+fn run_dgst(input: &Value) -> Value {
+    for _ in 0..8 {
+        if let Some(v) = try_dgst(input) {
+            return v;
+        }
+    }
+    json!({"id_collision_every_time": true})
+}
+
 fn main() {
     if !freeze_clock() {
         println!("TOOLERROR clock interposition does not work on this platform");
@@ -182,6 +433,8 @@ fn main() {
         match input["kind"].as_str() {
             Some("stream") => run_stream(input, n),
             Some("dgram") => run_dgram(input),
+            Some("multi") => run_multi(input),
+            Some("dgst") => run_dgst(input),
             _ => json!({"bad_case": true}),
         }
     });
